@@ -108,7 +108,7 @@ def run(ctx):
              "vel_clamped_hi": 0, "vel_clamped_lo": 0, "vel_unclamped": 0, "vel_zero_width": 0,
              "pos_over_ub": 0, "pos_under_lb": 0, "pos_inside": 0, "pos_zero_width": 0, "pos_inverted_box": 0,
              "leaders_adds": 0, "leaders_rejected": 0, "leaders_truncations_cutting": 0, "leaders_tie_breaks": 0,
-             "leaders_generations": 0, "in_situ_cases": 0, "by_algorithm": {a.__name__: 0 for a in ALGS}}
+             "leaders_generations": 0, "in_situ_cases": 0, "sc_mono_pairs_checked": 0, "delta_nonneg_checked": 0, "by_algorithm": {a.__name__: 0 for a in ALGS}}
 
     # --------------------------------------------------------------------------------------------
     # harness-side observation: the swarm module's `uniform`, the archive module's `choice`/`sample`,
@@ -318,6 +318,9 @@ def run(ctx):
                 if not (lb <= ub):
                     continue
                 delta = (ub - lb) / 2.0
+                stats["delta_nonneg_checked"] += 1
+                if not (delta >= 0.0):               # the arithmetic assumption of C18_velocity_clamped_float on this box
+                    ctx.notes.append("ASSUMPTION FAILS: lb=%r <= ub=%r but (ub-lb)/2 = %r < 0" % (lb, ub, delta))
                 if lb == ub:
                     stats["vel_zero_width"] += 1
                 if not (-delta <= vi <= delta):
@@ -440,6 +443,14 @@ def run(ctx):
             ok = False
         costs = [list(i.costs_signed) for i in inds]
         ties = [tie_of(c, eps) for c in costs]
+        # the arithmetic assumption of C18_leaders_eps, checked on the values of this case: x -> x/eps never reverses an order
+        for k in range(max((len(c) for c in costs), default=1) - 1):
+            e = float(eps[k % len(eps)]) or 1e-3
+            col = sorted(float(c[k]) for c in costs if len(c) - 1 > k)
+            for a, b in zip(col, col[1:]):
+                stats["sc_mono_pairs_checked"] += 1
+                if a / e > b / e:
+                    ctx.notes.append("ASSUMPTION FAILS: %r <= %r but %r/%r > %r/%r" % (a, b, a, e, b, e))
         # cross-check the harness's tie-break sums against the recorded math.pow tape
         for p, q, tape, v in compares:
             if tape:
@@ -641,10 +652,14 @@ def run(ctx):
         start_leaders(alg)
         for _ in range(rng.choice([1, 2, 3, 4])):
             swarm = []
+            antichain = m >= 2 and rng.random() < 0.4     # mostly incomparable offers: the archive outgrows `size` and is cut
             for _ in range(rng.choice([1, 2, 3, 4, 5, 6, 8])):
                 p = sw.IndividualSwarm([rng.random()])
                 if swarm and rng.random() < 0.2:
                     p.costs_signed = list(rng.choice(swarm).costs_signed)
+                elif antichain:
+                    t = rng.choice([0.0, 0.5, 1.0, 1.5, 2.0, 2.5, 3.0, 3.5, 4.0])
+                    p.costs_signed = [t, 4.0 - t] + [rng.choice(COST_SMALL) for _ in range(m - 2)] + [True]
                 else:
                     p.costs_signed = gen_costs(m, grid, True if rng.random() < 0.85 else None)
                 swarm.append(p)
@@ -699,13 +714,80 @@ def run(ctx):
         stats["runs"] += 1
         finish_leaders(alg, size, "run", {"bounds": [list(b) for b in bounds], "population_number": gens, "cost_mode": mode})
 
+    # ---------- corpus: boundary cases read off the code, run first -------------------------------
+    def corpus():
+        up = math.nextafter
+        for cls in ALGS:
+            # update_position: landing exactly on a bound (no bounce), one ulp beyond (bounce), zero-width boxes, signed zeros
+            for bounds, parts in [
+                ([(0.0, 10.0)], [([8.0], [2.0]), ([8.0], [up(2.0, INF)]), ([1.0], [-1.0]), ([1.0], [up(-1.0, -INF)]), ([4.0], [3.0])]),
+                ([(5.0, 5.0)], [([5.0], [0.0]), ([5.0], [1.0]), ([5.0], [-1.0]), ([5.0], [-0.0]), ([1e6], [-1e6])]),
+                ([(-0.0, 0.0)], [([0.0], [-0.0]), ([-0.0], [0.0]), ([-0.0], [-0.0]), ([5e-324], [-5e-324])]),
+                ([(0.0, 1.0), (2.0, 3.0)], [([0.5, 2.5], [1e150, -1e150]), ([0.5, 2.5], [0.5, 0.5]), ([0.0, 3.0], [0.0, 0.0])]),
+                ([(-1e300, 1e300)], [([1e300], [1e300]), ([-1e300], [-1e300]), ([0.0], [1e300])]),
+            ]:
+                alg = new_alg(cls, bounds)
+                pop = []
+                for vec, vel in parts:
+                    q = sw.IndividualSwarm(list(vec))
+                    q.features["velocity"] = list(vel)
+                    q.features["best_vector"] = list(vec)
+                    pop.append(q)
+                observe_position(alg, pop, "corpus")
+            # update_particle_best: identical, dominating, dominated, incomparable, marker decides, shared dict chain
+            for parts, shared in [
+                ([([1.0, 2.0, True], [1.0, 2.0, True])], False),
+                ([([1.0, 2.0, True], [1.0, 3.0, True])], False),
+                ([([1.0, 3.0, True], [1.0, 2.0, True])], False),
+                ([([1.0, 3.0, True], [2.0, 2.0, True])], False),
+                ([([0.0, 0.0, True], [5.0, 5.0, False])], False),
+                ([([5.0, 5.0, False], [0.0, 0.0, True])], False),
+                ([([1.0, 1.0, 1], [1.0, 1.0, -1])], False),
+                ([([1.0, 1.0, 2], [3.0, 3.0, 1])], False),
+                ([([0.0, -0.0, True], [-0.0, 0.0, True])], False),
+                ([([1.0], [1.0 + 2 ** -52])], False),
+                ([([0.0, 5.0, True], [1.0, 1.0, True]), ([2.0, 2.0, True], None), ([1.0, 1.0, True], None)], True),
+                ([([3.0, 3.0, True], [1.0, 1.0, True]), ([0.0, 0.0, True], None), ([2.0, 2.0, True], None)], True),
+            ]:
+                alg = new_alg(cls, [(0.0, 1.0)], 2)
+                pop = []
+                for k, (cur, best) in enumerate(parts):
+                    cur = list(cur) if len(cur) > 1 else list(cur) + [True]
+                    q = sw.IndividualSwarm([float(k)])
+                    q.costs_signed = cur
+                    if best is None:
+                        q.features = pop[0].features
+                    else:
+                        q.features["best_cost"] = list(best) if len(best) > 1 else list(best) + [True]
+                        q.features["best_vector"] = [9.0]
+                    pop.append(q)
+                observe_pbest(alg, pop, "corpus")
+            # leaders: archive of size 1 and 2 fed with a chain, duplicates and an anti-chain
+            for size, gens in [
+                (1, [[[3.0, 3.0], [2.0, 2.0], [2.0, 2.0]], [[1.0, 1.0]], [[1.0, 1.0], [0.0, 5.0]]]),
+                (2, [[[0.0, 4.0], [1.0, 3.0], [2.0, 2.0], [3.0, 1.0], [4.0, 0.0]], [[2.0, 2.0], [1.5, 1.5]], [[0.0, 0.0]]]),
+                (3, [[[1.0, 1.0]] * 4, [[1.0, 1.0 + 2 ** -52], [1.0 - 2 ** -53, 1.0]]]),
+            ]:
+                alg = new_alg(cls, [(0.0, 1.0)], 2)
+                alg.options["max_population_size"] = size
+                start_leaders(alg)
+                for g in gens:
+                    swarm = []
+                    for c in g:
+                        q = sw.IndividualSwarm([0.5])
+                        q.costs_signed = list(c) + [True]
+                        swarm.append(q)
+                    alg.update_global_best(swarm)
+                finish_leaders(alg, size, "corpus", {})
+
     # --------------------------------------------------------------------------------------------
     try:
-        n_pb = ctx.pick(500, 12000)
-        n_vl = ctx.pick(500, 12000)
-        n_ps = ctx.pick(600, 12000)
-        n_gb = ctx.pick(300, 8000)
-        n_run = ctx.pick(40, 1200)
+        corpus()
+        n_pb = ctx.pick(500, 5000)
+        n_vl = ctx.pick(500, 5000)
+        n_ps = ctx.pick(600, 5000)
+        n_gb = ctx.pick(300, 3000)
+        n_run = ctx.pick(40, 400)
         for _ in range(n_pb):
             gen_pbest_case()
         for i in range(n_vl):
